@@ -1,5 +1,6 @@
 import RisorModel.C18.Model
 import RisorModel.C18.Tables
+import RisorModel.C18.Decls
 import RisorModel.Generated.C18
 /-!
 C18 ties: facts regenerated from /repo's sources on this run equal what the REPL state machine
@@ -65,5 +66,9 @@ theorem importCacheKept_tie :
     Risor.Generated.C18.importCacheReplacedBy = importCacheReplacedBy ∧
     Risor.Generated.C18.resetOnlyWhenResetState = true ∧
     importCacheResetEveryRun = Risor.Generated.C18.runResetsState := by decide
+
+/-- layer 9: compileMain calls collectFunctionDeclarations at the top level of its body and before `c.compile(node)` — on every
+    input, also on a program of one statement: the first pass is the only place that refuses `func` over an existing name -/
+theorem firstPassOnEveryInput_tie : Risor.Generated.C18.firstPassOnEveryInput = firstPassOnEveryInput := by decide
 
 end Risor.C18
